@@ -127,13 +127,13 @@ func (pc ParseContext) CompileExpr(ctx context.Context, b ast.Branch) (rel.Expr,
 	case "IDENT":
 		return pc.compileIdent(ctx, c), nil
 	case "STR":
-		return pc.compileString(ctx, c), nil
+		return pc.compileString(ctx, c)
 	case "xstr":
 		return pc.compileExpandableString(ctx, b, c)
 	case "NUM":
 		return pc.compileNumber(ctx, c)
 	case "CHAR":
-		return pc.compileChar(ctx, c), nil
+		return pc.compileChar(ctx, c)
 	case exprTag:
 		result, err := pc.compileExpr(ctx, b, c)
 		if err != nil {
@@ -265,7 +265,10 @@ func (pc ParseContext) compileTuplePattern(ctx context.Context, b ast.Branch) (_
 					return nil, err
 				}
 				if name := pair.One("name"); name != nil {
-					k = parseName(name.(ast.Branch))
+					k, err = parseName(name.(ast.Branch))
+					if err != nil {
+						return nil, err
+					}
 				} else {
 					k = v.String()
 				}
@@ -879,7 +882,10 @@ func (pc ParseContext) compileCallGet(ctx context.Context, b ast.Branch) (_ rel.
 	} else {
 		get := b.One("get")
 		dot := get.One("dot")
-		result = pc.compileGet(ctx, rel.NewDotIdent(dot.Scanner()), get)
+		result, err = pc.compileGet(ctx, rel.NewDotIdent(dot.Scanner()), get)
+		if err != nil {
+			return nil, err
+		}
 	}
 	for _, part := range b.Many("tail_op") {
 		if safe := part.One("safe_tail"); safe != nil {
@@ -910,7 +916,7 @@ func (pc ParseContext) compileTail(ctx context.Context, base rel.Expr, tail ast.
 				base = rel.NewCallExpr(handleAccessScanners(base.Source(), call.Scanner()), base, arg)
 			}
 		}
-		base = pc.compileGet(ctx, base, tail.One("get"))
+		return pc.compileGet(ctx, base, tail.One("get"))
 	}
 	return base, nil
 }
@@ -956,7 +962,11 @@ func (pc ParseContext) compileTailFunc(ctx context.Context, tail ast.Node) (rel.
 			}
 			if str := get.One("STR"); str != nil {
 				scanner = str.One("").Scanner()
-				attr = parseArraiString(scanner.String())
+				var err error
+				attr, err = parseArraiString(scanner.String())
+				if err != nil {
+					return nil, err
+				}
 			}
 			return func(ctx context.Context, v rel.Value, local rel.Scope) (rel.Value, error) {
 				return rel.NewDotExpr(handleAccessScanners(v.Source(), scanner), v, attr).Eval(ctx, local)
@@ -966,7 +976,7 @@ func (pc ParseContext) compileTailFunc(ctx context.Context, tail ast.Node) (rel.
 	return nil, fmt.Errorf("compileTailFunc: tail AST malformed: %s", tail)
 }
 
-func (pc ParseContext) compileGet(_ context.Context, base rel.Expr, get ast.Node) rel.Expr {
+func (pc ParseContext) compileGet(_ context.Context, base rel.Expr, get ast.Node) (rel.Expr, error) {
 	if get != nil {
 		if names := get.One("names"); names != nil {
 			inverse := get.One("") != nil
@@ -974,7 +984,7 @@ func (pc ParseContext) compileGet(_ context.Context, base rel.Expr, get ast.Node
 			return rel.NewTupleProjectExpr(
 				handleAccessScanners(base.Source(), names.Scanner()),
 				base, inverse, attrs,
-			)
+			), nil
 		}
 
 		var scanner parser.Scanner
@@ -985,12 +995,16 @@ func (pc ParseContext) compileGet(_ context.Context, base rel.Expr, get ast.Node
 		}
 		if str := get.One("STR"); str != nil {
 			scanner = str.One("").Scanner()
-			attr = parseArraiString(scanner.String())
+			var err error
+			attr, err = parseArraiString(scanner.String())
+			if err != nil {
+				return nil, err
+			}
 		}
 
 		base = rel.NewDotExpr(handleAccessScanners(base.Source(), scanner), base, attr)
 	}
-	return base
+	return base, nil
 }
 
 func (pc ParseContext) compileSafeTails(ctx context.Context, base rel.Expr, tail ast.Node) (rel.Expr, error) {
@@ -1369,7 +1383,11 @@ func (pc ParseContext) compileTuple(ctx context.Context, b ast.Branch, c ast.Chi
 			var k string
 			name := pair.One("name")
 			if name != nil {
-				k = parseName(name.(ast.Branch))
+				var err error
+				k, err = parseName(name.(ast.Branch))
+				if err != nil {
+					return nil, err
+				}
 			}
 
 			keyPaths := []keyOpNode{}
@@ -1452,9 +1470,13 @@ func (pc ParseContext) compileIdent(_ context.Context, c ast.Children) rel.Expr 
 	return rel.NewLiteralExpr(scanner, value)
 }
 
-func (pc ParseContext) compileString(_ context.Context, c ast.Children) rel.Expr {
+func (pc ParseContext) compileString(_ context.Context, c ast.Children) (rel.Expr, error) {
 	scanner := c.(ast.One).Node.One("").Scanner()
-	return rel.NewLiteralExpr(scanner, rel.NewString([]rune(parseArraiString(scanner.String()))))
+	s, err := parseArraiString(scanner.String())
+	if err != nil {
+		return nil, err
+	}
+	return rel.NewLiteralExpr(scanner, rel.NewString([]rune(s))), nil
 }
 
 func (pc ParseContext) compileNumber(_ context.Context, c ast.Children) (rel.Expr, error) {
@@ -1467,11 +1489,18 @@ func (pc ParseContext) compileNumber(_ context.Context, c ast.Children) (rel.Exp
 	return rel.NewLiteralExpr(scanner, rel.NewNumber(n)), nil
 }
 
-func (pc ParseContext) compileChar(_ context.Context, c ast.Children) rel.Expr {
+func (pc ParseContext) compileChar(_ context.Context, c ast.Children) (rel.Expr, error) {
 	scanner := c.(ast.One).Node.One("").Scanner()
 	char := scanner.String()[1:]
-	runes := []rune(parseArraiStringFragment(char, "\"", ""))
-	return rel.NewLiteralExpr(scanner, rel.NewNumber(float64(runes[0])))
+	s, err := parseArraiStringFragment(char, "\"", "")
+	if err != nil {
+		return nil, err
+	}
+	runes := []rune(s)
+	if len(runes) == 0 {
+		return nil, fmt.Errorf("empty character literal: %s", scanner.String())
+	}
+	return rel.NewLiteralExpr(scanner, rel.NewNumber(float64(runes[0]))), nil
 }
 
 func (pc ParseContext) compileExpr(ctx context.Context, b ast.Branch, c ast.Children) (rel.Expr, error) {
